@@ -1440,6 +1440,51 @@ func genTx(r *rand.Rand, i int) *caseJSON {
 	return c
 }
 
+// switchGrid: the audit engine switched by ctl AFTER audit-enabled rules already fired — configured mode
+// x target mode x phase of the earlier audit-enabled match x phase of the ctl rule (same or later phase,
+// including the logging phase) x relevant / not relevant status. The earlier matches must still be in
+// the record (parts K and H), whatever the engine was when they fired.
+func switchGrid() []*caseJSON {
+	var out []*caseJSON
+	n := 0
+	for _, from := range []string{"Off", "RelevantOnly", "On"} {
+		for _, to := range []string{"On", "RelevantOnly", "Off"} {
+			for p1 := 1; p1 <= 5; p1++ {
+				for p2 := p1; p2 <= 5; p2++ {
+					n++
+					code := 403
+					if n%4 == 0 {
+						code = 200
+					}
+					c := &caseJSON{Kind: "tx", TxID: fmt.Sprintf("w%d", n), AuditEngine: from, RuleEngine: pick2(n, "On", "DetectionOnly"), Parts: pick3(n, "ABCFHKZ", "AHZ", "AKZ"),
+						Pattern: "^403$", Format: pick2(n/2, "json", "native"), Writer: "plugin", Callback: true, NArgs: 2, Last: 4, Code: code}
+					c.Rules = []ruleJSON{
+						{ID: 1, Phase: p1, Kind: pick2(n/3, "action", "args"), Acts: pick3s(n, []string{"log", "auditlog"}, []string{"nolog", "auditlog"}, []string{"auditlog"}), Disr: "pass"},
+						{ID: 2, Phase: p1, Kind: "action", Acts: []string{"log", "noauditlog"}, Disr: "pass"},
+						{ID: 3, Phase: p2, Kind: "action", Acts: []string{"nolog"}, Ctls: []string{"auditEngine=" + to}, Disr: "pass"},
+					}
+					if n%3 == 0 { // a later audit-enabled match as well (it must not be the only one listed)
+						c.Rules = append(c.Rules, ruleJSON{ID: 4, Phase: 5, Kind: "action", Acts: []string{"nolog", "auditlog"}, Disr: "pass"})
+					}
+					out = append(out, c)
+				}
+			}
+		}
+	}
+	return out
+}
+
+func pick2(n int, a, b string) string {
+	if n%2 == 0 {
+		return a
+	}
+	return b
+}
+
+func pick3(n int, a, b, c string) string { return []string{a, b, c}[n%3] }
+
+func pick3s(n int, a, b, c []string) []string { return [][]string{a, b, c}[n%3] }
+
 // the 3 x 3 x 2 x 2 (+ ctl) decision table, one transaction per cell
 func decisionGrid() []*caseJSON {
 	var out []*caseJSON
@@ -1794,6 +1839,10 @@ func Run(cfg vh.Config) (*vh.Result, error) {
 	for _, c := range decisionGrid() {
 		rn.runTx(c)
 		res.InputDistribution["grid"]++
+	}
+	for _, c := range switchGrid() {
+		rn.runTx(c)
+		res.InputDistribution["switch_grid"]++
 	}
 	if err := flush("C19_0"); err != nil {
 		return nil, err
